@@ -10,6 +10,8 @@ import (
 
 	"github.com/Oneledger/protocol/action"
 	"github.com/Oneledger/protocol/app/node"
+	"github.com/Oneledger/protocol/data/balance"
+	"github.com/Oneledger/protocol/data/governance"
 	"github.com/Oneledger/protocol/data/keys"
 	sv "github.com/Oneledger/protocol/zz_sv"
 )
@@ -118,8 +120,8 @@ func SV_C08_crash_restart() {
 // with the validator identity of party A and with every rotation of every
 // map iteration order.
 //
-// sv:bounds genesis with 4 validators in the last commit, two of them below the minimum self delegation (both purged at the first block end), unstakes of A maturing at blocks 3 and 4, symbolic funded balances; block 3 carries one SEND A->B with arbitrary amount/currency/fee, block 4 is empty; replica 2 = validator A's node key, and every rotation of the iteration order of every Go map ranged over during its two blocks (maps of 2..4 entries)
-// sv:outside wall clock and uuid sources (not reached by these blocks), the cross-chain witness role and job store (no tracker in these blocks), other transaction kinds and block-level hooks with non-empty inputs (allegations, proposals, trackers), IAVL internals, float behaviour on other CPU architectures
+// sv:bounds genesis with 4 validators in the last commit, two of them below the minimum self delegation (both purged at the first block end), unstakes of A maturing at blocks 3 and 4, symbolic funded balances, a proposal in voting whose deadline has passed (expired by the internal transaction of block 3); block 3 carries one SEND A->B with arbitrary amount/currency/fee, block 4 is empty; replica 2 = validator A's node key, and every rotation of the iteration order of every Go map ranged over during its two blocks (maps of 2..4 entries)
+// sv:outside wall clock and uuid sources (not reached by these blocks), the cross-chain witness role and job store (no tracker in these blocks), other transaction kinds and block-level hooks with non-empty inputs (allegations, proposal finalisation, trackers), IAVL internals, float behaviour on other CPU architectures
 // sv:goal same DeliverTx results, validator updates and ordered write sets in both blocks
 func SV_C01_node_identity_and_map_order() {
 	sv.NominalSizes(64)
@@ -135,6 +137,24 @@ func SV_C01_node_identity_and_map_order() {
 		svGenesisWithValidators(app, []int64{3000000, 3000000, 100, 200})
 		svFundOLT(app, svParty_(0).Addr, fundA)
 		svFundOLT(app, svParty_(1).Addr, fundB)
+		// a proposal in voting whose deadline (2) has passed: block 3 queues the
+		// internal expiry at BeginBlock and executes it at EndBlock, built with the
+		// node's own validator address
+		pm := app.Context.proposalMaster.WithState(app.Context.deliver)
+		prop := governance.NewProposal(svPropID, governance.ProposalTypeGeneral, "descr", "headline", svParty_(1).Addr,
+			1, balance.NewAmountFromInt(10), 2, 51, "")
+		prop.Status = governance.ProposalStatusVoting
+		if err := pm.Proposal.WithPrefixType(governance.ProposalStateActive).Set(prop); err != nil {
+			sv.Unreachable("proposal")
+		}
+		for i := 0; i < 2; i++ {
+			if err := pm.ProposalVote.Setup(svPropID, governance.NewProposalVote(svParty_(i).Addr, governance.OPIN_UNKNOWN, 3000000)); err != nil {
+				sv.Unreachable("vote setup")
+			}
+		}
+		if err := pm.ProposalFund.AddFunds(svPropID, svParty_(1).Addr, balance.NewAmountFromInt(10)); err != nil {
+			sv.Unreachable("funds")
+		}
 		svCommitBlock(app)
 		return app
 	}
